@@ -17,12 +17,20 @@ type C08W struct {
 	Creators []int `json:"creators"`            // containers created by each runtime goroutine
 	Pre      int   `json:"pre"`                 // containers already in the store
 	FailSync []int `json:"fail_sync,omitempty"` // late plugins (by position) whose Synchronize handler fails: their registration must fail cleanly
+	// Bystanders: runtime goroutines relaying that many other lifecycle events each (pod and container
+	// state changes of unrelated objects), without a sync block, while plugins register and containers are created
+	Bystanders []int `json:"bystanders,omitempty"`
 }
 
 func c08Gen(rng *rand.Rand, conf string, idx int) any {
 	w := &C08W{Early: rng.Intn(2), Late: 1 + rng.Intn(4), Pre: rng.Intn(3)}
 	for k, n := 0, 1+rng.Intn(3*deep(conf)); k < n; k++ {
 		w.Creators = append(w.Creators, 1+rng.Intn(4*deep(conf)))
+	}
+	if rng.Intn(3) == 0 {
+		for k, n := 0, 1+rng.Intn(2); k < n; k++ {
+			w.Bystanders = append(w.Bystanders, 1+rng.Intn(5*deep(conf)))
+		}
 	}
 	if rng.Intn(3) == 0 {
 		for k := 0; k < w.Late; k++ {
@@ -133,6 +141,22 @@ func c08Run(t *testing.T, wl any, sc SchedCfg) *Result {
 				}
 			})
 		}
+		for bi, n := range w.Bystanders {
+			bi, n := bi, n
+			e.Task(fmt.Sprintf("bystander%d", bi), func() {
+				evs := []string{"StopPodSandbox", "StartContainer", "PostStartContainer", "RunPodSandbox", "RemoveContainer", "PostUpdateContainer"}
+				for k := 0; k < n; k++ {
+					ev := evs[(bi+k)%len(evs)]
+					bp := &api.PodSandbox{Id: fmt.Sprintf("bypod%d", bi), Name: "by"}
+					if _, err := h.Call(ev, bp, &api.Container{Id: fmt.Sprintf("by%d.%d", bi, k), PodSandboxId: bp.Id}, nil); err != nil {
+						res.Violate("C08.request", "%s (bystander) failed: %v", ev, err)
+					}
+				}
+			})
+		}
+		if len(w.Bystanders) > 0 {
+			res.Probe("C08.other-events-relayed-during-registrations")
+		}
 		total := w.Early + w.Late
 		err := e.RunUntil(600000, func() bool { return e.TasksDone() && h.L.AcceptCount() >= total+1 })
 		if err != nil {
@@ -171,7 +195,9 @@ func c08Run(t *testing.T, wl any, sc SchedCfg) *Result {
 				case "CreateContainer":
 					got[en.Token]++
 				case "StartContainer":
-					marker = true
+					if en.Token == "marker" {
+						marker = true
+					}
 				}
 			}
 			if failing[p.Name] {
